@@ -818,10 +818,15 @@ def model_value(model, v):
 
 
 def subst(s, mapping):
-    """substitute input atoms (dict name -> number) in a Sym; returns a new Sym (concrete value not tracked: nan)"""
+    """substitute input atoms (dict name -> number) in a Sym; the concrete value is re-evaluated at the witness"""
     if s is NAN or s.is_const():
         return s
     pairs = [(CTX.atoms[k].n, rv(v)) for k, v in mapping.items()]
     n = z3.substitute(s.n, *pairs)
     d = z3.substitute(s.d, *pairs)
-    return Sym(n, d, float("nan"))
+    ev = Eval()
+    try:
+        c = ev.cev(n) / ev.cev(d)
+    except (ZeroDivisionError, Unsupported):
+        c = float("nan")
+    return Sym(n, d, c)
